@@ -170,9 +170,19 @@ def dependent_axes(wcs, axis):
     """
     if isinstance(wcs, LegacyCoordinates):
         return (axis,)
-    matrix = wcs.axis_correlation_matrix[::-1, ::-1]
-    world_dep = matrix[:, axis:axis + 1]
-    return tuple(np.nonzero((world_dep & matrix).any(axis=0))[0])
+    matrix = np.asarray(wcs.axis_correlation_matrix, dtype=bool)[::-1, ::-1]
+    # Two axes depend on each other if they are connected in the graph whose
+    # edges are the non-zero elements of the correlation matrix. This holds
+    # for both directions of the transformation, and does not assume that the
+    # diagonal elements are set (they are not e.g. for transposed axes).
+    n = max(matrix.shape)
+    graph = np.identity(n, dtype=bool)
+    graph[:matrix.shape[0], :matrix.shape[1]] |= matrix
+    graph |= graph.T
+    dep = graph[axis]
+    for _ in range(n):
+        dep = graph[dep].any(axis=0)
+    return tuple(np.nonzero(dep)[0])
 
 
 def _get_ndim(header):
